@@ -52,9 +52,9 @@ def add_encoders(reg):
 
 def add_cshake(reg):
     reg.add(ClassContract(XOF, fields={'_state': 'obj:' + SP, '_is_squeezing': 'bool', '_padding': 'int'},
-                          valid=['%s.g_sq ==> self._is_squeezing' % ST, 'not %s.g_sq ==> %s.g_out == 0' % (ST, ST),
-                                 '%s.g_sq ==> %s.g_pad == self._padding' % (ST, ST),
-                                 '0 <= self._padding and self._padding <= 255']))
+                          # (all((..)) / any((..)): conjunction / disjunction evaluated without forking -- cheap path exploration)
+                          valid=['all((any((not %s.g_sq, self._is_squeezing)), any((%s.g_sq, %s.g_out == 0)), '
+                                 'any((not %s.g_sq, %s.g_pad == self._padding)), 0 <= self._padding, self._padding <= 255))' % (ST, ST, ST, ST, ST)]))
     custom = '(b"" if custom is None else bytes(custom))'
     reg.add(Contract(XOF + '.__init__', params={'data': 'buffer|none', 'custom': 'buffer|none', 'capacity': "enum(256, 512)", 'function': 'bytes'},
                      requires=['custom is not None or len(function) == 0'],
@@ -123,10 +123,9 @@ def add_kmac(reg):
     # domain: 8 <= mac_len (module documentation: "Minimum is 8") and mac_len <= sys.maxsize (a longer tag cannot be
     # materialised: read() raises OverflowError)
     reg.add(ClassContract(KMAC, fields={'oid': 'str', 'digest_size': 'int', '_mac': 'bytes|none', '_cshake': 'obj:' + XOF},
-                          valid=['8 <= self.digest_size and self.digest_size <= ' + MAXSIZE,
-                                 'self._cshake._padding == 0x04',
+                          valid=['all((8 <= self.digest_size, self.digest_size <= %s, self._cshake._padding == 0x04))' % MAXSIZE,
                                  'self._mac is None ==> not self._cshake._is_squeezing',
-                                 'self._mac is not None ==> (len(self._mac) == self.digest_size and self._cshake._is_squeezing)']))
+                                 'self._mac is not None ==> all((len(self._mac) == self.digest_size, self._cshake._is_squeezing))']))
     done = 'self._mac is not None'
     for modname, rate in VARIANTS:
         tag = 'kmac%d' % (128 if rate == 168 else 256)
@@ -178,10 +177,9 @@ def add_tuplehash(reg):
     """SP 800-185 section 5: TupleHash(X, L, S) = cSHAKE(encode_string(X[1]) || ... || encode_string(X[m]) || right_encode(L), L, "TupleHash", S)."""
     TCS = 'self._cshake._state._raw_pointer'
     reg.add(ClassContract(TUPLE, fields={'digest_size': 'int', '_digest': 'bytes|none', '_cshake': 'obj:' + XOF},
-                          valid=['8 <= self.digest_size and self.digest_size <= ' + MAXSIZE,
-                                 'self._cshake._padding == 0x04',
+                          valid=['all((8 <= self.digest_size, self.digest_size <= %s, self._cshake._padding == 0x04))' % MAXSIZE,
                                  'self._digest is None ==> not self._cshake._is_squeezing',
-                                 'self._digest is not None ==> (len(self._digest) == self.digest_size and self._cshake._is_squeezing)']))
+                                 'self._digest is not None ==> all((len(self._digest) == self.digest_size, self._cshake._is_squeezing))']))
     for modname, rate in VARIANTS:
         tag = 'tuplehash%d' % (128 if rate == 168 else 256)
         c = Contract(TUPLE + '.__init__', params={'custom': 'buffer', 'cshake': 'module:' + modname, 'digest_size': 'int'},
